@@ -17,6 +17,7 @@ verdict for a manipulated blob, it predicts it, and real NaCl has to agree.
 import hashlib
 import io
 import random
+from collections import deque
 
 from nacl.bindings import crypto_secretbox
 from twisted.internet import error as tw_error
@@ -39,12 +40,20 @@ TRUSTED = ["XSalsa20-Poly1305 (NaCl SecretBox): an interface in Lean whose ideal
            "Twisted: after transport.loseConnection() the reactor calls connectionLost once; an exception leaving "
            "dataReceived drops the connection",
            "transit handshake (C07) is run for real by the harness but not modelled here; the model starts at "
-           "_negotiationSuccessful"]
+           "_negotiationSuccessful (bytes riding behind the handshake are the first chunk: leftover_is_first_chunk)",
+           "application callbacks (read callbacks, consumer-Deferred callbacks) re-enter the connection only through "
+           "receive_record / connectConsumer / writeToFile / disconnectConsumer / close, as finite scripts; errbacks, "
+           "consumer.write / registerProducer / unregisterProducer and progress/hasher hooks are passive (they do not "
+           "call back into the connection)"]
 RULE = ("two real Connections (TransitSender/TransitReceiver owners, real handshake, real NaCl); record lists with sizes "
         "{0,1,15,16,65535,65536,70000}+random, counts <= 12; chunkings all/1-byte/frame-aligned/random/explicit; every "
         "manipulation class (bit flip in length/nonce/MAC/body, delete, duplicate, swap, replay-at-end, truncate, inject "
         "bytes/garbage frame/empty frame/short frame, reflect, cross-direction, key-holder wrong nonce, huge length), both "
-        "directions, read / chained-read / consumer / writeToFile modes, connectionLost and close at arbitrary points; "
+        "directions, read / chained-read / pipelined reads / consumer / writeToFile modes, random trees of re-entrant "
+        "callbacks (reads issued from read callbacks, consumers attached mid-stream over queued records and outstanding "
+        "reads, detached, re-attached from their own Deferred's callback, close() from callbacks), connectionLost and "
+        "close at arbitrary points; the order in which records leave the connection is observed by instrumenting the "
+        "inbound queue in-process; "
         "non-trivial = at least one record accepted or one manipulation detected; distinct = distinct canonical traces")
 
 SPEC_CTX = {"S": b"transit_record_sender_key", "R": b"transit_record_receiver_key"}   # key a side SENDS with
@@ -180,14 +189,34 @@ class Side:
         self.consumers = []    # (consumer/file object, deferred or None, expected, result holder)
         self.progress = 0
         self.hasher = hashlib.sha256()
-        self.surf = []         # record payloads handed to the application (reads and consumer writes), in order
-        self.kick_next = False
+        self.closed = False
+        # the order in which records leave the connection towards the application: every pop from the inbound
+        # queue and every record handed straight to an attached consumer (observed by instrumenting the object,
+        # inside this process only)
+        self.surf = []
+        side = self
+
+        class SpyDeque(deque):
+            def popleft(self_):
+                r = deque.popleft(self_)
+                side.surf.append(bytes(r))
+                return r
+
+            def pop(self_, *a):
+                r = deque.pop(self_, *a)
+                side.surf.append(bytes(r))
+                return r
+        self.conn._inbound_records = SpyDeque(self.conn._inbound_records)
+        orig_rr = self.conn.recordReceived
+
+        def spy_record_received(record):
+            if self.conn._consumer:
+                self.surf.append(bytes(record))
+            return orig_rr(record)
+        self.conn.recordReceived = spy_record_received
 
     def note_write(self, b):
-        if self.kick_next:     # the empty write of connectConsumer(expected=0): not a record
-            self.kick_next = False
-            return
-        self.surf.append(b)
+        pass
 
     def handshake_bytes(self):
         if self.role == "S":
@@ -214,41 +243,54 @@ class Side:
         self.ev[:] = [e for e in self.ev if e != "tx=" + hx(b"go\n")]
         return exc
 
-    # --- application side
-    def read(self, chain):
+    # --- application side: scripts (trees of API calls made from inside callbacks), see WV.C06.Act
+    def run_script(self, acts):
+        """application code: the API calls of one callback (or of top-level code), in order; an exception leaving a
+        call ends it (inside a callback Twisted's Deferred would swallow it the same way)"""
+        try:
+            for a in acts:
+                self.do_act(a)
+        except Exception as e:
+            self.ev.append("!" + type(e).__name__)
+
+    def do_act(self, a):
+        k = a[0]
+        if k == "r":
+            self.read(a[1])
+        elif k == "c":
+            self.consume(a[1], a[2], a[3])
+        elif k == "d":
+            cur = self.conn._consumer
+            for rec in self.consumers:
+                if cur is not None and (rec["obj"] is cur or getattr(cur, "_f", None) is rec["obj"]):
+                    rec["detached"] = True      # the application gave up on this consumer: its Deferred is dropped
+            self.conn.disconnectConsumer()
+        elif k == "x":
+            self.closed = True
+            self.conn.close()
+        else:
+            raise ValueError(a)
+
+    def read(self, on_fire):
         rid = self.next_id
         self.next_id += 1
 
         def cb(r):
             self.read_result[rid] = ("ok", bytes(r))
-            self.surf.append(bytes(r))
             self.ev.append(f"r{rid}={hx(bytes(r))}")
-            if chain > 0:
-                self.read(chain - 1)
+            self.run_script(on_fire)
 
         def eb(f):
             self.read_result[rid] = ("err", f.type.__name__)
             self.ev.append(f"x{rid}")
-        # the id must be known to the summary before a synchronous fire: register in two steps
-        d = self._receive_record(rid)
-        d.addCallbacks(cb, eb)
-
-    def _receive_record(self, rid):
-        # receive_record() may fire the Deferred before returning it; callbacks are added afterwards
-        # (as an application does), Twisted then runs them immediately.
+        # receive_record() may fire the Deferred before returning it; the callback is added afterwards (as an
+        # application does) and Twisted then runs it immediately
         d = self.conn.receive_record()
         self.reads[id(d)] = (rid, d)
-        return d
+        d.addCallbacks(cb, eb)
 
-    def consume(self, expected, mode):
+    def consume(self, expected, mode, on_done):
         holder = {}
-        self.kick_next = (expected == 0) and not self.conn._consumer
-        try:
-            return self._consume(expected, mode, holder)
-        finally:
-            self.kick_next = False
-
-    def _consume(self, expected, mode, holder):
         if mode == "file":
             f = LogFile(self)
             orig = transit.FileConsumer
@@ -268,6 +310,7 @@ class Side:
                 holder["done"] = n
                 holder["at"] = sum(len(x) for x in obj.data)
                 self.ev.append(f"cd={n}")
+                self.run_script(on_done)
 
             def eb(f):
                 holder["fail"] = f.type.__name__
@@ -414,6 +457,64 @@ def chunk_stream(stream, spec, frames, rnd):
 
 # ---------------------------------------------------------------------------
 
+# ---------------------------------------------------------------------------
+# application scripts: act = ["r", [acts]] | ["c", expected, mode, [acts]] | ["d"] | ["x"]
+
+def chain(n):
+    """a read whose callback reads again, n times (the `yield receive_record()` loop)"""
+    return ["r", [chain(n - 1)] if n > 0 else []]
+
+
+def normalise_action(a):
+    """old case vocabulary -> ["call", script] / ["lost"]"""
+    k = a[0]
+    if k == "read":
+        return ["call", [chain(a[1])]]
+    if k == "consume":
+        return ["call", [["c", a[1], a[2] if len(a) > 2 else "consumer", []]]]
+    if k == "close":
+        return ["call", [["x"]]]
+    return a
+
+
+def encode_script(acts):
+    """postfix tokens for the model's line protocol (see WV.C06.parseScript)"""
+    toks = []
+
+    def go(a):
+        if a[0] == "d":
+            toks.append("d")
+        elif a[0] == "x":
+            toks.append("x")
+        elif a[0] == "r":
+            for k in a[1]:
+                go(k)
+            toks.append(f"r{len(a[1])}")
+        elif a[0] == "c":
+            for k in a[3]:
+                go(k)
+            toks.append(f"c{'n' if a[1] is None else a[1]}:{len(a[3])}")
+        else:
+            raise ValueError(a)
+    for a in acts:
+        go(a)
+    return ".".join(toks) if toks else "-"
+
+
+def script_tags(acts, depth=0, out=None):
+    out = [] if out is None else out
+    for a in acts:
+        out.append(("cb:" if depth else "top:") + {"r": "read", "c": "consume", "d": "detach", "x": "close"}[a[0]])
+        kids = a[1] if a[0] == "r" else a[3] if a[0] == "c" else []
+        script_tags(kids, depth + 1, out)
+    return out
+
+
+def is_subsequence(xs, ys):
+    it = iter(ys)
+    return all(any(x == y for y in it) for x in xs)
+
+
 def run_case(case):
     rnd = random.Random(case.get("mseed", 0))
     snd_role = case["dir"]                  # who sends the records
@@ -479,31 +580,23 @@ def run_case(case):
     excs = []          # exception names raised by dataReceived, in order
     fed = b""
     lost_called = False
-    closed = False
 
     def app_action(a):
-        nonlocal lost_called, closed
+        nonlocal lost_called
+        a = normalise_action(a)
         k = a[0]
-        if k == "read":
-            rcv.read(a[1])
-            do(f"read {rcv_role} {a[1]}", rcv)
-        elif k == "consume":
-            exc = None
-            try:
-                rcv.consume(a[1], a[2] if len(a) > 2 else "consumer")
-            except RuntimeError as e:
-                exc = type(e).__name__
-            do(f"consume {rcv_role} {'none' if a[1] is None else a[1]}", rcv, exc)
+        if k == "call":
+            rcv.run_script(a[1])
+            do(f"call {rcv_role} {encode_script(a[1])}", rcv)
+            tags.extend(script_tags(a[1]))
         elif k == "lost":
             if not lost_called:
                 lost_called = True
                 rcv.lost_at_id = rcv.next_id
                 rcv.conn.connectionLost(tw_error.ConnectionDone())
                 do(f"lost {rcv_role}", rcv)
-        elif k == "close":
-            closed = True
-            rcv.conn.close()
-            do(f"close {rcv_role}", rcv)
+        else:
+            raise ValueError(a)
         tags.append("app:" + k)
 
     app = {}
@@ -548,12 +641,12 @@ def run_case(case):
         app_action(["lost"])
     late = case.get("late_reads", 0)
     for _ in range(late):
-        rcv.read(0)
-        do(f"read {rcv_role} 0", rcv)
+        app_action(["call", [chain(0)]])
 
     # ---- the oracle: the property on what the real code did
     c = rcv.conn
     all_ev = rcv.all_ev
+    closed = rcv.closed
     surfaced = list(rcv.surf) + [bytes(x) for x in c._inbound_records]
 
     sent = other if reflect and False else recs
@@ -601,14 +694,28 @@ def run_case(case):
             viol.append(("read-wrong-error", f"reads {bad} failed with {[rcv.read_result[i][1] for i in bad]}"))
         for rec in rcv.consumers:
             h = rec["holder"]
-            if rec["d"] is not None and "done" not in h and "fail" not in h and not rec["after_lost"]:
+            if rec["d"] is not None and "done" not in h and "fail" not in h and not rec["after_lost"] \
+                    and not rec.get("detached"):
                 viol.append(("consumer-never-fails", "consumer Deferred pending at connectionLost never fired"))
-    # reads deliver in the order they were asked for
-    ok_ids = [i for i in sorted(rcv.read_result) if rcv.read_result[i][0] == "ok"]
-    fired_order = [int(e[1:e.index("=")]) for e in all_ev
-                   if e.startswith("r") and "=" in e and e[1:e.index("=")].isdigit()]
-    if fired_order != sorted(fired_order):
-        viol.append(("reads-out-of-order", f"reads fired in order {fired_order}"))
+    # what the application observed is what left the connection: the records reads obtained plus the records
+    # consumers were given (minus the empty kick of expected=0) are exactly the surfaced ones …
+    got_reads = [rcv.read_result[i][1] for i in sorted(rcv.read_result) if rcv.read_result[i][0] == "ok"]
+    got_writes = []
+    for rec in rcv.consumers:
+        data = list(rec["obj"].data)
+        if rec["expected"] == 0 and data and data[0] == b"":
+            data = data[1:]
+        got_writes += data
+    if sorted(got_reads + got_writes) != sorted(rcv.surf):
+        viol.append(("observed-differs", f"reads obtained {short(got_reads)} and consumers {short(got_writes)} but the records "
+                                         f"that left the connection are {short(rcv.surf)}"))
+    # … reads obtain them in the order the reads were issued, consumers in write order
+    if not is_subsequence(got_reads, rcv.surf):
+        ids = [i for i in sorted(rcv.read_result) if rcv.read_result[i][0] == "ok"]
+        viol.append(("reads-out-of-order", f"reads {ids} (in issue order) obtained {short(got_reads)}: not in the order "
+                                           f"the records were sent {short(rcv.surf)}"))
+    if not is_subsequence(got_writes, rcv.surf):
+        viol.append(("writes-out-of-order", f"consumers were given {short(got_writes)}: not in the order sent {short(rcv.surf)}"))
     # consumer mode: same bytes, fires exactly at the threshold
     for rec in rcv.consumers:
         h, ex, obj = rec["holder"], rec["expected"], rec["obj"]
@@ -662,9 +769,32 @@ def rand_recs(rng, big_ok=True, maxn=12):
     return out
 
 
+def rand_script(rng, depth=0, budget=None):
+    """a random tree of API calls; `budget` bounds the total number of nodes"""
+    budget = budget if budget is not None else [rng.choice([1, 2, 3, 5, 8, 12])]
+    acts = []
+    n = rng.choice([0, 1, 1, 2, 2, 3]) if depth else rng.choice([1, 1, 2, 3])
+    for _ in range(n):
+        if budget[0] <= 0:
+            break
+        budget[0] -= 1
+        k = rng.choice(["r", "r", "r", "r", "c", "c", "d", "x"] if depth < 4 else ["r", "d"])
+        if k == "x" and rng.random() < 0.6:
+            k = "r"
+        if k == "r":
+            acts.append(["r", rand_script(rng, depth + 1, budget)])
+        elif k == "c":
+            ex = rng.choice([None, 0, 0, 1, 3, 16, 17, 40, 56, 100, rng.randrange(0, 200)])
+            acts.append(["c", ex, rng.choice(["file", "consumer"]), rand_script(rng, depth + 1, budget)])
+        else:
+            acts.append([k])
+    return acts
+
+
 def rand_app(rng, nchunks):
     acts = []
-    mode = rng.choice(["reads-first", "reads-late", "chain", "consume", "file", "mixed", "none"])
+    mode = rng.choice(["reads-first", "reads-late", "chain", "consume", "file", "mixed", "none",
+                       "script", "script", "script", "pipelined"])
     pos = lambda: rng.choice([-1, -1, "end"] + list(range(max(nchunks, 1))))  # noqa: E731
     if mode == "reads-first":
         for _ in range(rng.randrange(1, 15)):
@@ -686,6 +816,17 @@ def rand_app(rng, nchunks):
             a = rng.choice([["read", 0], ["read", 0], ["read", rng.randrange(1, 4)],
                             ["consume", rng.choice([None, 0, 1, 40, 150]), rng.choice(["file", "consumer"])]])
             acts.append([pos(), a])
+    elif mode == "script":
+        # attach / detach / re-attach / re-entrant reads from inside callbacks, at arbitrary points of the stream
+        for _ in range(rng.randrange(1, 5)):
+            acts.append([pos(), ["call", rand_script(rng)]])
+    elif mode == "pipelined":
+        # several reads outstanding at once, each of whose callbacks reads again (and maybe twice)
+        for _ in range(rng.randrange(2, 5)):
+            kids = [chain(rng.randrange(0, 3)) for _ in range(rng.choice([1, 1, 2]))]
+            acts.append([-1, ["call", [["r", kids]]]])
+        if rng.random() < 0.5:
+            acts.append([pos(), ["call", [["c", rng.choice([1, 20, 60]), "consumer", [chain(1)]]]]])
     if rng.random() < 0.15:
         acts.append([pos(), ["lost"]])
     if rng.random() < 0.08:
@@ -793,6 +934,33 @@ def corpus():
                     app=[["end", ["consume", 5, "file"]], ["end", ["read", 3]]]))
     out.append(dict(kind="stream", dir="S", recs=three, chunk="aligned", manip=["delete", 2],
                     app=[[-1, ["consume", 100, "file"]]]))
+    # re-entrancy and attachment mid-stream (witnesses of `delivery_exact`)
+    five = [[5, 1], [0, 2], [17, 3], [3, 4], [40, 5]]
+    R = lambda kids: ["r", kids]          # noqa: E731
+    C = lambda ex, kids: ["c", ex, "consumer", kids]   # noqa: E731
+    scripts = [
+        # two reads outstanding, each callback reads again (pipelined + re-entrant)
+        [[-1, ["call", [R([R([])])]]], [-1, ["call", [R([R([])])]]]],
+        # a callback that issues two reads: the second is served inside the first one's receive_record()
+        [["end", ["call", [R([R([]), R([R([])])])]]]],
+        [[-1, ["call", [R([R([]), R([])])]]], [-1, ["call", [R([])]]], [-1, ["call", [R([])]]]],
+        # consumer attached with records already queued and with reads outstanding; re-attached from its own callback
+        [["end", ["call", [C(6, [C(20, [R([])])])]]]],
+        [[-1, ["call", [R([])]]], [0, ["call", [C(10, [R([]), C(None, [])])]]], ["end", ["call", [["d"], R([])]]]],
+        # a read callback attaches a consumer which drains the queue; when done, the callback chain reads on
+        [["end", ["call", [R([C(17, [R([R([])])])])]]]],
+        # detach and re-attach by hand, detach with nothing attached (AttributeError), double attach (RuntimeError)
+        [[-1, ["call", [C(None, [])]]], [1, ["call", [["d"], C(3, [])]]], ["end", ["call", [["d"]]]], ["end", ["call", [["d"]]]]],
+        [[-1, ["call", [C(None, []), C(5, []), R([])]]]],
+        # expected=0 from inside a callback, twice
+        [["end", ["call", [R([C(0, [C(0, [R([])])])])]]]],
+        # close() from inside a read callback with reads outstanding
+        [[-1, ["call", [R([["x"], R([])])]]], [-1, ["call", [R([])]]], [-1, ["call", [R([])]]]],
+    ]
+    for app in scripts:
+        for ch in ("all", "aligned", "one"):
+            out.append(dict(kind="stream", dir="S", recs=five, chunk=ch, manip=None, app=app))
+        out.append(dict(kind="stream", dir="R", recs=five, chunk="all", manip=["flip", 3, 30, 1], app=app))
     return out
 
 
